@@ -14,6 +14,7 @@ from .. import gen
 from ..runner import H, sig_of
 
 KINDS = ("VANISH", "ZOMBIE", "EACCES", "EPERM", "HALFGONE")
+# (+ THREAD_EXIT on accesses to task/<tid>/ records, + ZOMBIE+REAP)
 ERRNO = {"EACCES": 13, "EPERM": 1}
 
 TREE_WALKERS = ("children", "children_r", "parent", "parents",
@@ -297,6 +298,11 @@ class FaultPoint(EngineBase):
             elif kind == "HALFGONE":
                 k.schedule_at_access(0, 1, f["k"], {"ev": "halfgone",
                                                     "pid": f["pid"]})
+            elif kind == "THREAD_EXIT":
+                # one *thread* of the (live) process ends just before this
+                # access to its task/<tid>/ record
+                k.schedule_at_access(0, 1, f["k"], {
+                    "ev": "thread_exit", "pid": f["pid"], "tid": f["tid"]})
             else:
                 k.schedule_fault(0, 1, f["k"], {"kind": kind,
                                                 "errno": ERRNO[kind]})
@@ -502,6 +508,12 @@ class FaultPoint(EngineBase):
             for (kk, kind, arg, pid) in extra_deny:
                 for fk in ("EACCES", "EPERM"):
                     singles.append((kk, kind, arg, pid, fk))
+            thread_exits = {}
+            for (kk, kind, arg, pid) in targets:
+                m_ = re.search(r"/proc/%d/task/(\d+)/" % target, str(arg))
+                if m_ and int(m_.group(1)) != target and pid == target:
+                    singles.append((kk, kind, arg, pid, "THREAD_EXIT"))
+                    thread_exits[kk] = int(m_.group(1))
             for (kk, kind, arg, pid, fk) in list(singles):
                 if fk == "ZOMBIE" and pid == target and (kk + len(name)) % 3 \
                         == 0:
@@ -511,6 +523,8 @@ class FaultPoint(EngineBase):
             for (kk, kind, arg, pid, fk) in singles:
                 plan = dict(base, faults=[{"k": kk, "kind": fk.split("+")[0],
                                            "pid": pid}])
+                if fk == "THREAD_EXIT":
+                    plan["faults"][0]["tid"] = thread_exits[kk]
                 if fk.endswith("+REAP"):
                     plan["then_reap"] = True
                 r = W.execute_forked(plan)
